@@ -282,7 +282,7 @@ func (fc *FuncCtx) SoleDefBetween(obj types.Object, a, b int) bool {
 func c02R2(p *Prog, r *Report) {
 	const rule = "C02-R2"
 	r.Rule(rule, "response binding: ParseTCPResponseHeader succeeds only past the type, timestamp, request-salt-equality and non-zero-length tests; the client compares against the salt it sealed its own request with; the server echoes the salt of the request it has just authenticated")
-	ph := p.Func("ss2022", "", "ParseTCPResponseHeader")
+	ph := p.Inlined(p.Func("ss2022", "", "ParseTCPResponseHeader"))
 	info := ph.Info()
 	reqSalt := ph.ParamObj(2)
 	// salt equality edges
